@@ -69,6 +69,45 @@ func c01Generic(c *Ctx, pkg string, seal bool) {
 					var mac []aeadSeg
 					macKeyed := false
 					var ctVal ssa.Value
+					zeroed := int64(0)
+					// byte-granular contents of local arrays written by PutUint64 (any split of
+					// the length block into one or two scratch arrays reads the same)
+					bytesOf := map[*ssa.Alloc]map[int64]string{}
+					baseOff := func(w *pathWalker, v ssa.Value) (*ssa.Alloc, int64) {
+						if sl, ok := v.(*ssa.Slice); ok {
+							if al, ok := sl.X.(*ssa.Alloc); ok {
+								lo := int64(0)
+								if sl.Low != nil {
+									lo, _ = w.env.eval(sl.Low)
+								}
+								return al, lo
+							}
+						}
+						return nil, 0
+					}
+					addMac := func(cl string, l int64) {
+						if l <= 0 && cl != "?" {
+							return
+						}
+						if k := len(mac); k > 0 {
+							p := &mac[k-1]
+							if p.class == cl && cl == "ZERO" {
+								p.n += l
+								return
+							}
+							// X@o+n followed by X@(o+n): one contiguous region
+							if i := strings.LastIndex(p.class, "@"); i > 0 && strings.HasPrefix(cl, p.class[:i+1]) {
+								var o1, o2 int64
+								fmt.Sscan(p.class[i+1:], &o1)
+								fmt.Sscan(cl[i+1:], &o2)
+								if o1+p.n == o2 {
+									p.n += l
+									return
+								}
+							}
+						}
+						mac = append(mac, aeadSeg{cl, l})
+					}
 					baseAlloc := func(v ssa.Value) *ssa.Alloc {
 						if sl, ok := v.(*ssa.Slice); ok {
 							if al, ok := sl.X.(*ssa.Alloc); ok {
@@ -195,19 +234,49 @@ func c01Generic(c *Ctx, pkg string, seal bool) {
 							cl := "?"
 							if k, ok := class[cc.Args[1]]; ok {
 								cl = fmt.Sprintf("%s@%d", k, off[cc.Args[1]])
-							} else if al := baseAlloc(cc.Args[1]); al != nil {
-								cl = content[al]
-								if cl == "" {
-									cl = "ZERO"
+							} else if al, lo := baseOff(w, cc.Args[1]); al != nil {
+								// byte by byte: complete little-endian words become one segment each
+								for i := lo; i < lo+l; {
+									tok := bytesOf[al][i]
+									if strings.HasSuffix(tok, "#0") && i+8 <= lo+l {
+										whole := true
+										for j := int64(1); j < 8; j++ {
+											if bytesOf[al][i+j] != fmt.Sprintf("%s#%d", tok[:len(tok)-2], j) {
+												whole = false
+											}
+										}
+										if whole {
+											addMac(tok[:len(tok)-2], 8)
+											i += 8
+											continue
+										}
+									}
+									if tok == "" {
+										tok = content[al]
+									}
+									if tok == "" {
+										tok = "ZERO"
+									}
+									addMac(tok, 1)
+									i++
+								}
+								break
+							}
+							addMac(cl, l)
+						case strings.HasPrefix(name, "(encoding/binary.littleEndian).PutUint64"):
+							if al, lo := baseOff(w, cc.Args[1]); al != nil {
+								k, _ := w.env.eval(cc.Args[2])
+								if bytesOf[al] == nil {
+									bytesOf[al] = map[int64]string{}
+								}
+								for j := int64(0); j < 8; j++ {
+									bytesOf[al][lo+j] = fmt.Sprintf("LE64(%d)#%d", k, j)
 								}
 							}
-							if l > 0 || cl == "?" {
-								mac = append(mac, aeadSeg{cl, l})
-							}
-						case strings.HasPrefix(name, "(encoding/binary.littleEndian).PutUint64"):
-							if al := baseAlloc(cc.Args[1]); al != nil {
-								k, _ := w.env.eval(cc.Args[2])
-								content[al] = fmt.Sprintf("LE64(%d)", k)
+						case name == "builtin:clear":
+							if cl, isC := class[cc.Args[0]]; isC && cl == "OUT" {
+								l, _ := w.env.eval(cc.Args[0])
+								zeroed += l
 							}
 						case strings.HasSuffix(name, "poly1305.MAC).Sum"):
 							evs = append(evs, "tag->"+desc(w, cc.Args[1]))
@@ -217,7 +286,6 @@ func c01Generic(c *Ctx, pkg string, seal bool) {
 						}
 						return ""
 					}
-					zeroed := int64(0)
 					w.onStore = func(w *pathWalker, st *ssa.Store) string {
 						if ia, ok := st.Addr.(*ssa.IndexAddr); ok {
 							if cl, isC := class[ia.X]; isC && cl == "OUT" {
